@@ -303,7 +303,7 @@ class ApplyROI(Command):
 
         for data in self.data_collection:
             for subset in data.subsets:
-                if subset not in self.old_states:
+                if subset not in self.old_states and getattr(subset, 'group', None) not in self.old_groups:
                     subset.delete()
 
         for k, v in self.old_states.items():
@@ -356,7 +356,7 @@ class ApplySubsetState(Command):
 
         for data in self.data_collection:
             for subset in data.subsets:
-                if subset not in self.old_states:
+                if subset not in self.old_states and getattr(subset, 'group', None) not in self.old_groups:
                     subset.delete()
 
         for k, v in self.old_states.items():
